@@ -1752,6 +1752,7 @@ int tls_decrypt_recv(TLS_CONNECT *conn)
 	if (tls_record_decrypt(hmac_ctx, dec_key, seq_num,
 		record, recordlen,
 		conn->databuf, &conn->datalen) != 1) {
+		conn->datalen = 0;
 		error_print();
 		return -1;
 	}
